@@ -35,6 +35,10 @@ def run(ctx):
     ctx.step(fulfill_all, ctx)
     ctx.step(dtor, ctx)
     ctx.step(query, ctx)
+    ctx.step(common.no_repeated_moves, ctx, "C18.broadcast",
+             [f for f in ctx.fb.functions() if f.file.endswith("/DelayedObjects.hpp")], floor=2)
+    ctx.step(common.find_results_checked, ctx, "C18.lookup",
+             [f for f in ctx.fb.functions() if f.file.endswith("/DelayedObjects.hpp")], floor=4)
     ctx.step(common.raii_only, ctx, "C18.raii", ["DelayedObjects.hpp"], floor=5)
 
 
